@@ -85,6 +85,7 @@ func ruleLimit(e *Env, ruleName string, pkgs ...string) {
 			}
 			c.RuleLimitZero(e.PkgFuncs(pkg), "MaxInputLength")
 			c.RuleSentinelOnlyInGuards(sent, e.PkgFuncs(pkg))
+			c.RuleLimitOnce(sent, e.PkgFuncs(pkg))
 			for i := range c.Out {
 				switch c.Out[i].Rule {
 				case "C18.L", "LIMIT0":
